@@ -85,25 +85,33 @@ Definition f64_to_Z (d : f64) : option Z :=
 
 (** round-to-nearest-even of the rational [n / d] to binary64; [None] on overflow (the Go parsers
     then report ErrRange).  Exponent floor -1074 (subnormals), 53-bit significand. *)
+
+(** [a / (d * 2^e) = q + r/den] *)
+Definition f64_quot (a : Z) (d : positive) (e : Z) : Z * Z * Z :=
+  let num := if Z.leb 0 e then a else (a * 2 ^ (- e))%Z in
+  let den := if Z.leb 0 e then (Zpos d * 2 ^ e)%Z else Zpos d in
+  (Z.div num den, Z.modulo num den, den).
+
+(** the exponent at which the quotient has 53 bits (or -1074 for subnormals) *)
+Definition f64_exp (a : Z) (d : positive) : Z :=
+  let l := (Z.log2 a - Z.log2 (Zpos d))%Z in
+  let e0 := Z.max (l - 53) (-1074) in
+  if Z.leb (2 ^ 53) (fst (fst (f64_quot a d e0))) then (e0 + 1)%Z else e0.
+
+Definition f64_round (q r den : Z) : Z :=
+  match Z.compare (2 * r) den with
+  | Gt => (q + 1)%Z
+  | Eq => if Z.odd q then (q + 1)%Z else q
+  | Lt => q
+  end.
+
 Definition f64_of_Q (n : Z) (d : positive) : option f64 :=
   match n with
   | Z0 => Some (F64 0 0)
   | _ =>
       let a := Z.abs n in
-      let l := (Z.log2 a - Z.log2 (Zpos d))%Z in
-      let quot (e : Z) : Z * Z * Z :=      (* (q, r, den) with a / (d * 2^e) = q + r/den *)
-        let num := if Z.leb 0 e then a else (a * 2 ^ (- e))%Z in
-        let den := if Z.leb 0 e then (Zpos d * 2 ^ e)%Z else Zpos d in
-        (Z.div num den, Z.modulo num den, den) in
-      let e0 := Z.max (l - 53) (-1074) in
-      let '(q0, _, _) := quot e0 in
-      let e := if Z.leb (2 ^ 53) q0 then (e0 + 1)%Z else e0 in
-      let '(q, r, den) := quot e in
-      let q' := match Z.compare (2 * r) den with
-                | Gt => (q + 1)%Z
-                | Eq => if Z.odd q then (q + 1)%Z else q
-                | Lt => q
-                end in
+      let e := f64_exp a d in
+      let q' := f64_round (fst (fst (f64_quot a d e))) (snd (fst (f64_quot a d e))) (snd (f64_quot a d e)) in
       if Z.leb (2 ^ 1024) (q' * 2 ^ (Z.max e 0))%Z then None
       else Some (f64_norm (F64 (if Z.ltb n 0 then - q' else q') e))
   end.
